@@ -32,6 +32,10 @@ def run(ctx):
   ctx.borrow(c12.rule_ladder, "R-C13-RANK")
   # "p-values of every test are not systematically small" for good generators: the excursion statistics are only chi-square / normal above 500 cycles
   ctx.borrow(c12.rule_excursion_gate, "R-C13-GATE")
+  ctx.borrow(c12.rule_tables, "R-C13-SF", lambda r: "ASYMPTOTIC_RANK_SF" in r.where, ctx.tier)   # a survival probability printed too small fails a good generator
+  ctx.expect("R-C13-SF", 33, "33 survival probabilities of the large-rank test")
+  rule_ctor(ctx)
+  ctx.expect("R-C13-CTOR", 6, "five constructor parameters + initial state")
   ctx.expect("R-C13-GATE", 1, "500-cycle gate")
   ctx.expect("R-C13-RANK", 3, "loop condition, guard agreement, matrix shape")
   ctx.expect("R-C13-STATE", 7, "seven clauses of Run")
@@ -465,3 +469,46 @@ def rule_fisher(ctx):
           x = sym.mk("idx", pv, Poly.atom(g.args[1]))
           ok = (elt + sym.mk("math.log", x)).is_zero()
   ctx.record(R, f.where, "Igamc(len, sum -log p)", ok, "Fisher's method: Erlang survival function" if ok else "general case is not Igamc(len(p), -sum(log p))")
+
+
+# ------------------------------------------------------------------ CTOR (the levels and the repetition minimum the caller asked for are the ones decided with)
+def rule_ctor(ctx):
+  R = "R-C13-CTOR"
+  repo = ctx.repo
+  c = repo.cls(MOD, "TestStructure")
+  f = repo.find_method(c, "__init__")
+  w = sym.Walker(repo, f)
+  w.run()
+  sets = {}
+  for e in w.events:
+    if e.kind == "setattr" and not isinstance(e.data["value"], (Seq, tuple)) and e.data["value"] is not None and as_poly(e.data["base"]) == SELF:
+      sets.setdefault(e.data["attr"], e.data["value"])
+  for q in [q for q in f.params() if q != "self"]:
+    pq = P("param", q)
+    pa = pq.as_atom()
+    holders = [(a, v) for a, v in sets.items() if not isinstance(v, Const) and pa in as_poly(v).all_atoms()]
+    same = [a for a, v in holders if as_poly(v) == pq]
+    changed = []
+    for a, v in holders:
+      v = as_poly(v)
+      if v == pq:
+        continue
+      va = v.as_atom()
+      leaf = {x for x in v.all_atoms() if x.kind in ("param", "sym", "attr", "call", "mcall")}
+      if leaf == {pa} and not (va is not None and va.kind in ("int", "float", "str", "list", "tuple")):
+        if va is not None and va.kind == "max" and len(va.args) == 2 and any(as_poly(x) == pq for x in va.args) and any((as_poly(x).as_int() or 99) <= 1 for x in va.args):
+          same.append(a)      # max(1, min_repetitions): a test is run at least once anyway
+          continue
+        changed.append((a, v))
+    if changed:
+      ctx.violation(R, f.where, "parameter %s kept as given" % q, "self.%s = %r: the decision structure works with a different value than the caller asked for" % (changed[0][0], changed[0][1]))
+    elif same:
+      ctx.ok(R, f.where, "parameter %s kept as given" % q, "stored unchanged in self.%s" % same[0])
+    else:
+      ctx.violation(R, f.where, "parameter %s kept as given" % q, "the parameter is not stored: the decision structure cannot use it")
+  init = {a: v for a, v in sets.items()}
+  r0 = init.get("runs")
+  fin0 = init.get("finished")
+  ok0 = r0 is not None and not isinstance(r0, Const) and as_poly(r0).as_int() == 0 or (isinstance(r0, Const) and r0.v == 0)
+  okf = isinstance(fin0, Const) and fin0.v is False
+  ctx.record(R, f.where, "starts with runs = 0, not finished", bool(ok0 and okf), "initial state" if ok0 and okf else "runs starts at %r, finished at %r" % (r0, fin0))
